@@ -1,6 +1,7 @@
 package c10
 
 import (
+	"fmt"
 	"sort"
 	"strconv"
 	"strings"
@@ -32,22 +33,41 @@ func chainLine(re *regex.RegExp, s []uint16) (string, error) {
 	return sb.String(), nil
 }
 
-var allSubjects [][]uint16
+// subjSpec identifies a subject list: the first n entries of SubjectsExt(maxLen).
+type subjSpec struct{ maxLen, n int }
 
-func subjectPrefix(n int) [][]uint16 {
-	if allSubjects == nil {
-		allSubjects = Subjects(4)
-	}
-	if n > len(allSubjects) {
-		n = len(allSubjects)
-	}
-	return allSubjects[:n]
+func parseSubjSpec(s string) subjSpec {
+	var sp subjSpec
+	fmt.Sscanf(s, "%d:%d", &sp.maxLen, &sp.n)
+	return sp
 }
 
-// explainMatchDiff decides, for a "match-differs" case, which deviations
-// (subset of {"R","S"}) explain EVERY differing subject line exactly. It
-// returns nil when some line is not reproduced by any alternative model.
-func explainMatchDiff(pattern, flags string, nsubs int, observed string) []string {
+var subjectCache = map[int][][]uint16{}
+
+func subjectPrefix(sp subjSpec) [][]uint16 {
+	l := subjectCache[sp.maxLen]
+	if l == nil {
+		l = SubjectsExt(sp.maxLen)
+		subjectCache[sp.maxLen] = l
+	}
+	n := sp.n
+	if n > len(l) {
+		n = len(l)
+	}
+	return l[:n]
+}
+
+// explainMatchDiff decides, for a "match-differs" case, which deviations explain
+// EVERY differing subject line exactly. It returns nil when some line is not
+// reproduced by any alternative model. Deviations of the matcher itself:
+//
+//	LD  '.' excludes only \n              LA  multiline ^ $ look only for \n
+//	CF  ignoreCase by Unicode simple case folding (long s, Kelvin sign reach s, k)
+//	S   subject sliced at lastIndex       R   RE2 leftmost-first semantics
+//
+// Alternatives are tried smallest first; the spec matcher with toggles before
+// the RE2 engine (which has LA and CF built in).
+func explainMatchDiff(pattern, flags string, nsubs subjSpec, observed string) []string {
 	pat := regex.ClassifyString(pattern)
 	if pat.Class != regex.Portable && pat.Class != regex.Lenient {
 		return nil
@@ -59,33 +79,79 @@ func explainMatchDiff(pattern, flags string, nsubs int, observed string) []strin
 	}
 	ic, ml, global := strings.Contains(flags, "i"), strings.Contains(flags, "m"), strings.Contains(flags, "g")
 	spec := regex.NewRegExp(pat, flags)
-	var eng *re2Engine
-	if re2Sensitive(pat.Root) {
-		eng, _ = newRE2Engine(pat, ic, ml)
-	}
-	ctx := contextSensitive(pat.Root) && global
 	type alt struct {
 		name string
 		re   *regex.RegExp
 	}
 	var alts []alt
-	mk := func(find func(s []uint16, from int) (*regex.MatchResult, error)) *regex.RegExp {
-		r := regex.NewRegExp(pat, flags)
-		r.Find = find
-		return r
+	// relevant toggles of the spec matcher
+	var toggles []string
+	if hasKind(pat.Root, regex.KDot) {
+		toggles = append(toggles, "LD")
 	}
-	if ctx {
-		alts = append(alts, alt{"S", mk(sliced(specFinder(spec)))})
+	if ml && (hasKind(pat.Root, regex.KBol) || hasKind(pat.Root, regex.KEol)) {
+		toggles = append(toggles, "LA")
 	}
-	if eng != nil {
-		alts = append(alts, alt{"R", mk(eng.find)})
-		if ctx {
-			alts = append(alts, alt{"R+S", mk(sliced(eng.find))})
+	if ic {
+		toggles = append(toggles, "CF")
+	}
+	if contextSensitive(pat.Root) && global {
+		toggles = append(toggles, "S")
+	}
+	for size := 1; size <= len(toggles); size++ {
+		for mask := 1; mask < 1<<len(toggles); mask++ {
+			var names []string
+			on := map[string]bool{}
+			for i, t := range toggles {
+				if mask&(1<<i) != 0 {
+					names = append(names, t)
+					on[t] = true
+				}
+			}
+			if len(names) != size {
+				continue
+			}
+			r := regex.NewRegExp(pat, flags)
+			r.Prog = regex.CompileAlt(pat, ic, ml, regex.AltOptions{DotNewlineOnly: on["LD"], AnchorNewlineOnly: on["LA"], UnicodeFold: on["CF"]})
+			f := specFinder(r)
+			if on["S"] {
+				f = sliced(f)
+			}
+			r.Find = f
+			alts = append(alts, alt{strings.Join(names, "+"), r})
+		}
+	}
+	if re2Sensitive(pat.Root) {
+		mk := func(name string, find func(s []uint16, from int) (*regex.MatchResult, error)) {
+			r := regex.NewRegExp(pat, flags)
+			r.Find = find
+			alts = append(alts, alt{name, r})
+		}
+		ctx := contextSensitive(pat.Root) && global
+		if eng, err := newRE2Engine(pat, ic, ml, false); err == nil {
+			mk("R", eng.find)
+			if ctx {
+				mk("R+S", sliced(eng.find))
+			}
+		}
+		if hasKind(pat.Root, regex.KDot) {
+			if eng, err := newRE2Engine(pat, ic, ml, true); err == nil {
+				mk("R+LD", eng.find)
+				if ctx {
+					mk("R+LD+S", sliced(eng.find))
+				}
+			}
 		}
 	}
 	used := map[string]bool{}
 	ndiff := 0
 	for i, s := range subs {
+		if global && !isASCII(s) {
+			if obsLines[i] != skippedLine {
+				return nil
+			}
+			continue
+		}
 		want, err := chainLine(spec, s)
 		if err != nil {
 			return nil
@@ -118,6 +184,18 @@ func explainMatchDiff(pattern, flags string, nsubs int, observed string) []strin
 	}
 	sort.Strings(out)
 	return out
+}
+
+func hasKind(n *regex.Node, k regex.Kind) bool {
+	if n.Kind == k {
+		return true
+	}
+	for _, c := range n.Kids {
+		if hasKind(c, k) {
+			return true
+		}
+	}
+	return false
 }
 
 // bareControlRewrite models defect B: TransformRegExp turns "\c" that is not
@@ -217,19 +295,104 @@ func emptyFlagGroupRewrite(pattern string) (string, bool) {
 	return sb.String(), changed
 }
 
+// posixClassRewrite models defect PX: inside a character class RE2 reads
+// "[:alpha:]" / "[:digit:]" as POSIX classes (JavaScript: the characters [ : a l p h ...).
+func posixClassRewrite(pattern string) (string, bool) {
+	var sb strings.Builder
+	changed := false
+	inClass := false
+	for i := 0; i < len(pattern); i++ {
+		c := pattern[i]
+		switch {
+		case c == '\\' && i+1 < len(pattern):
+			sb.WriteByte(c)
+			sb.WriteByte(pattern[i+1])
+			i++
+		case inClass && strings.HasPrefix(pattern[i:], "[:alpha:]"):
+			sb.WriteString("a-zA-Z")
+			changed = true
+			i += len("[:alpha:]") - 1
+		case inClass && strings.HasPrefix(pattern[i:], "[:digit:]"):
+			sb.WriteString("0-9")
+			changed = true
+			i += len("[:digit:]") - 1
+		case inClass:
+			if c == ']' {
+				inClass = false
+			}
+			sb.WriteByte(c)
+		case c == '[':
+			inClass = true
+			sb.WriteByte(c)
+			if i+1 < len(pattern) && pattern[i+1] == '^' {
+				sb.WriteByte('^')
+				i++
+			}
+		default:
+			sb.WriteByte(c)
+		}
+	}
+	return sb.String(), changed
+}
+
+// longOctalRewrite models defect OC: TransformRegExp reads EVERY following octal
+// digit into one number and emits \x + hex of it; RE2 then takes two hex digits
+// and the rest literally. (B.1.4: at most three digits and at most 0377.)
+func longOctalRewrite(pattern string) (string, bool) {
+	var sb strings.Builder
+	changed := false
+	for i := 0; i < len(pattern); i++ {
+		c := pattern[i]
+		if c != '\\' || i+1 >= len(pattern) {
+			sb.WriteByte(c)
+			continue
+		}
+		j := i + 1
+		v := 0
+		for j < len(pattern) && pattern[j] >= '0' && pattern[j] <= '7' {
+			v = v*8 + int(pattern[j]-'0')
+			j++
+		}
+		n := j - (i + 1)
+		if n >= 2 && (n > 3 || v > 0377) {
+			h := fmt.Sprintf("%02x", v)
+			sb.WriteString("\\x" + h[:2] + h[2:])
+			changed = true
+			i = j - 1
+			continue
+		}
+		sb.WriteByte(c)
+		sb.WriteByte(pattern[i+1])
+		i++
+	}
+	return sb.String(), changed
+}
+
+func hasHugeRepeat(n *regex.Node) bool {
+	if n.Kind == regex.KQuant && (n.Min > 1000 || n.Max > 1000) {
+		return true
+	}
+	for _, k := range n.Kids {
+		if hasHugeRepeat(k) {
+			return true
+		}
+	}
+	return false
+}
+
 var rewrites = []struct {
 	name string
 	f    func(string) (string, bool)
-}{{"A", emptyClassRewrite}, {"C", emptyFlagGroupRewrite}, {"B", bareControlRewrite}}
+}{{"A", emptyClassRewrite}, {"C", emptyFlagGroupRewrite}, {"PX", posixClassRewrite}, {"OC", longOctalRewrite}, {"B", bareControlRewrite}}
 
 // Deviation names, in attribution priority (repairable defects first, so that a
 // regression of a repaired defect is never hidden behind an architectural one).
-var devPriority = []string{"Q", "A", "C", "B", "S", "R"}
+var devPriority = []string{"Q", "A", "C", "PX", "OC", "B", "RC", "LD", "LA", "CF", "S", "R"}
 
 // explainCase returns the set of deviations that together reproduce the
 // observation exactly, or ok=false when no combination does. An empty set with
 // ok=true means the observation agrees with the model.
-func explainCase(pattern, flags string, nsubs int, rejected bool, observed string, depth int) (devs []string, ok bool) {
+func explainCase(pattern, flags string, nsubs subjSpec, rejected bool, observed string, depth int) (devs []string, ok bool) {
 	pat := regex.ClassifyString(pattern)
 	subs := subjectPrefix(nsubs)
 	var lines []string
@@ -246,6 +409,11 @@ func explainCase(pattern, flags string, nsubs int, rejected bool, observed strin
 	case "match-differs":
 		if d := explainMatchDiff(pattern, flags, nsubs, observed); d != nil {
 			return d, true
+		}
+	case "rejected-valid":
+		// RE2 refuses repeat counts above 1000
+		if pat.Root != nil && hasHugeRepeat(pat.Root) {
+			return []string{"RC"}, true
 		}
 	case "accepted-invalid":
 		if pat.Class == regex.Malformed {
@@ -288,8 +456,7 @@ func firstDev(m *engine.Mismatch) string {
 	}
 	key := m.Aux["form"] + "\x00" + m.Aux["flags"] + "\x00" + m.Aux["pattern"] + "\x00" + m.Aux["nsubs"] + "\x00" + m.Aux["rejected"] + "\x00" + m.Aux["observed"]
 	if explainCache.key != key {
-		n, _ := strconv.Atoi(m.Aux["nsubs"])
-		d, ok := explainCase(m.Aux["pattern"], m.Aux["flags"], n, m.Aux["rejected"] == "true", m.Aux["observed"], 0)
+		d, ok := explainCase(m.Aux["pattern"], m.Aux["flags"], parseSubjSpec(m.Aux["nsubs"]), m.Aux["rejected"] == "true", m.Aux["observed"], 0)
 		explainCache.key, explainCache.devs, explainCache.ok = key, d, ok
 	}
 	if !explainCache.ok || len(explainCache.devs) == 0 {
@@ -331,6 +498,12 @@ func init() {
 	// s[lastIndex:]; every differing subject line equals the spec chain run on
 	// the sliced subject (possibly combined with RE2 semantics when the pattern
 	// is also in that class).
+	register("c10-posix-class", func(m *engine.Mismatch) bool { return firstDev(m) == "PX" })
+	register("c10-long-octal-escape", func(m *engine.Mismatch) bool { return firstDev(m) == "OC" })
+	register("c10-repeat-count-limit", func(m *engine.Mismatch) bool { return firstDev(m) == "RC" })
+	register("c10-dot-line-terminators", func(m *engine.Mismatch) bool { return firstDev(m) == "LD" })
+	register("c10-multiline-line-terminators", func(m *engine.Mismatch) bool { return firstDev(m) == "LA" })
+	register("c10-unicode-case-folding", func(m *engine.Mismatch) bool { return firstDev(m) == "CF" })
 	register("c10-sliced-subject", func(m *engine.Mismatch) bool { return firstDev(m) == "S" })
 	// RE2 leftmost-first semantics on patterns with a quantified nullable body or
 	// a capture inside a repeatable quantified body; every differing line equals
